@@ -374,7 +374,13 @@ func (h *HttpServer) sealToken(version byte, payload interface{}, aad []byte) ([
 
 // openToken reverses sealToken into out (a pointer to the token struct).
 func (h *HttpServer) openToken(version byte, token []byte, aad []byte, out interface{}) error {
-	raw, err := base64.StdEncoding.DecodeString(string(token))
+	// Only the canonical encoding sealToken produced is a valid token: the
+	// standard decoder would also accept the same bytes with CR/LF spliced in
+	// or with stray bits in the final symbol.
+	if bytes.ContainsAny(token, "\r\n") {
+		return &RpcError{Type: "RuntimeError", Message: "Malformed state token"}
+	}
+	raw, err := base64.StdEncoding.Strict().DecodeString(string(token))
 	if err != nil {
 		return &RpcError{Type: "RuntimeError", Message: "Malformed state token"}
 	}
